@@ -1,0 +1,73 @@
+//go:build verif
+
+package minersc
+
+import (
+	"0chain.net/chaincore/block"
+	cstate "0chain.net/chaincore/chain/state"
+	"0chain.net/chaincore/transaction"
+)
+
+// Thin wrappers for the verification harness (governance settings C48, view-change phases C38). No logic.
+
+func VerifGovValidate(gn *GlobalNode) error { return gn.validate() }
+
+// VerifGovSetPhaseNode is the phase step of payFees (setPhaseNode).
+func VerifGovSetPhaseNode(msc *MinerSmartContract, balances cstate.StateContextI, pn *PhaseNode, gn *GlobalNode,
+	t *transaction.Transaction, isViewChange bool) error {
+	return msc.setPhaseNode(balances, pn, gn, t, isViewChange)
+}
+
+func VerifGovAdjustViewChange(msc *MinerSmartContract, gn *GlobalNode, balances cstate.StateContextI) error {
+	return msc.adjustViewChange(gn, balances)
+}
+
+func VerifGovSaveGlobalNode(gn *GlobalNode, balances cstate.StateContextI) error { return gn.save(balances) }
+
+func VerifGovDKGMiners(balances cstate.StateContextI) (*DKGMinerNodes, error) {
+	return getDKGMinersList(balances)
+}
+
+func VerifGovMPKs(balances cstate.StateContextI) (*block.Mpks, error) { return getMinersMPKs(balances) }
+
+func VerifGovGSoS(balances cstate.StateContextI) (*block.GroupSharesOrSigns, error) {
+	return getGroupShareOrSigns(balances)
+}
+
+func VerifGovMagicBlock(balances cstate.StateContextI) (*block.MagicBlock, error) {
+	return getMagicBlock(balances)
+}
+
+func VerifGovShardersKeep(balances cstate.StateContextI) (*MinerNodes, error) {
+	return getShardersKeepList(balances)
+}
+
+// VerifGovPhaseTables exposes the phase tables filled by initSC: rounds per phase, and the names of
+// the move / phase functions registered for each phase ("" when none).
+func VerifGovPhaseTables() (rounds map[Phase]int64, move map[Phase]string, fn map[Phase]string) {
+	rounds, move, fn = map[Phase]int64{}, map[Phase]string{}, map[Phase]string{}
+	for p, r := range PhaseRounds {
+		rounds[p] = r
+	}
+	for p, f := range moveFunctions {
+		move[p] = getFunctionName(f)
+	}
+	for p, f := range phaseFuncs {
+		fn[p] = getFunctionName(f)
+	}
+	return
+}
+
+// VerifGovMove calls the move function registered for pn.Phase (read-only check of the move condition).
+func VerifGovMove(balances cstate.StateContextI, pn *PhaseNode, gn *GlobalNode) error {
+	return moveFunctions[pn.Phase](balances, pn, gn)
+}
+
+// VerifGovPhaseFunc calls the phase function registered for the phase, if any.
+func VerifGovPhaseFunc(phase Phase, balances cstate.StateContextI, gn *GlobalNode) (has bool, err error) {
+	f, ok := phaseFuncs[phase]
+	if !ok {
+		return false, nil
+	}
+	return true, f(balances, gn)
+}
